@@ -33,7 +33,7 @@ def extractor(ck: Check) -> Extractor:
     k = id(ck.repo)
     if k not in _EX_CACHE:
         _EX_CACHE.clear()
-        _EX_CACHE[k] = Extractor(ck.repo)
+        _EX_CACHE[k] = Extractor(ck.repo, ck.walker)
     return _EX_CACHE[k]
 
 
@@ -280,17 +280,18 @@ def r07_5(ck: Check) -> None:
         if not sp or "param" not in sp:
             ck.violated("R07.5", construct, "no id is computed from the consumed byte span (or it is not passed to the constructor)", where)
             continue
-        tells = sp["tells"]
         problems = []
-        if tells.get(sp.get("start")) != 0:
-            problems.append("span does not start at the object's first byte")
-        end_reads = tells.get(sp.get("end"))
-        if want_end == "all" and end_reads != sp["total_reads"]:
-            problems.append("span ends after %s of %d reads" % (end_reads, sp["total_reads"]))
-        if want_end == "header" and not (end_reads == 1 and c.reader and c.reader[0][:2] == ("nested", DT + "BlockHeader")):
-            problems.append("span does not cover exactly the header")
-        if sp.get("seek") != sp.get("start") or sp.get("seek_reads") != end_reads or sp.get("reads_before") != end_reads:
-            problems.append("the stream is not rewound to the span start right after the end position was taken")
+        if not sp.get("ok"):
+            problems.append("the span is not `f.read(end - start)` between two f.tell() positions after rewinding with f.seek(start)")
+        else:
+            if sp["reads_before_start"] != 0:
+                problems.append("span does not start at the object's first byte")
+            if want_end == "all" and sp["reads_after_end"] != 0:
+                problems.append("span ends before the whole object has been decoded (%d reads after it)" % sp["reads_after_end"])
+            if want_end == "header":
+                hdr = [i for i, p_ in enumerate(c.reader or []) if p_[:2] == ("nested", DT + "BlockHeader")]
+                if not (sp["reads_in_span"] == 1 and hdr == [0]):
+                    problems.append("span does not cover exactly the header (%d reads inside)" % sp["reads_in_span"])
         if c.ctor.get(sp["param"]) != "cached_hash":
             problems.append("the value is not stored as the cached id")
         if problems:
@@ -432,19 +433,18 @@ def r07_2_lists(ck: Check) -> None:
         ck.violated("R07.2", construct, "list writer changed: %s" % "; ".join(e.describe() for e in writes), s.fi.loc)
     s = ck.summ(S + "stream_deserialize_list", 0)
     sp = Spec(s, ("f", "clz"))
-    vl = sp.term("stream_deserialize_vlq(f)")
-    spl = Spec(s, ("f", "clz"), forall=[("k", "range(stream_deserialize_vlq(f))")])
-    app = [e for e in s.events if e.kind == "call" and e.parts and e.parts[0][0] == "a" and e.parts[0][2] == "append" and e.parts[0][1][0] == "new"
-           and list(loop_doms(e)) == spl.loops and not residual(e, ()) and not any(l[2] for l in e.loops)
-           and e.term[2] == (sp.term("clz.stream_deserialize(f)"),)]
-    rets = s.returns()
     reads = [e for e in s.events if e.kind == "call" and (S + "stream_deserialize_vlq" in e.targets or (e.parts and e.parts[0][0] == "a"
              and e.parts[0][2] in ("stream_deserialize", "read")) or S + "safe_read" in e.targets)]
-    construct = "stream_deserialize_list: vlq count, then exactly count elements appended in order, returned"
-    if len(app) == 1 and len(rets) == 1 and rets[0].term == app[0].parts[0][1] and len(reads) == 2 and not residual(rets[0], ()):
+    from ..engine.match import same_function
+    want = sp.term("[clz.stream_deserialize(f) for k in range(stream_deserialize_vlq(f))]")
+    construct = "stream_deserialize_list: vlq count, then exactly count elements decoded in order, returned"
+    from ..engine.terms import untag
+    from ..engine.match import function_value
+    fv = function_value(s)
+    if fv is not None and untag(fv) == want and len(reads) == 2:
         ck.ok("R07.2", construct, "", s.fi.loc)
     else:
-        ck.violated("R07.2", construct, "list reader changed: %s" % "; ".join(e.describe() for e in reads), s.fi.loc)
+        ck.violated("R07.2", construct, "list reader changed: returns %s" % "; ".join(show(r.term)[:160] for r in s.returns()), s.fi.loc)
     s = ck.summ(S + "serialize_list", 0)
     rets = s.returns()
     wr = [e for e in s.events if e.kind == "call" and S + "stream_serialize_list" in e.targets]
